@@ -56,6 +56,9 @@ noncomputable instance : LawfulNum ℝ where
   mul_rpow := fun a b e ha hb => by
     show (a * b) ^ ((e : ℚ) : ℝ) = a ^ ((e : ℚ) : ℝ) * b ^ ((e : ℚ) : ℝ)
     rw [Real.mul_rpow (le_of_lt ha) (le_of_lt hb)]
+  mul_rpow_int := fun a b n => by
+    show (a * b) ^ (((n : ℚ)) : ℝ) = a ^ (((n : ℚ)) : ℝ) * b ^ (((n : ℚ)) : ℝ)
+    rw [Rat.cast_intCast, Real.rpow_intCast, Real.rpow_intCast, Real.rpow_intCast, mul_zpow]
   lt_irrefl := fun a => by simp [NumOps.lt]
   lt_asymm := fun a b h => by
     have : a < b := by simpa [NumOps.lt] using h
